@@ -667,6 +667,22 @@ class Layout:
             return self.run(stmt.body, st, on_expr)
         if isinstance(stmt, ast.Assign):
             return [st]  # attribute/subscript stores do not build strings
+        if isinstance(stmt, ast.For) and isinstance(stmt.target, ast.Name) and not stmt.orelse \
+                and not any(isinstance(x, (ast.Break, ast.Continue)) for x in ast.walk(stmt)):
+            # a loop over a literal sequence is its body once per element
+            seq = self.ev(st, stmt.iter)
+            if isinstance(seq, list) and len(seq) <= 16:
+                states = [st]
+                for item in seq:
+                    nxt = []
+                    for s_ in states:
+                        if s_.done:
+                            nxt.append(s_)
+                            continue
+                        s_.env[stmt.target.id] = item
+                        nxt.extend(self.run(stmt.body, s_, on_expr))
+                    states = nxt
+                return states
         raise AnalysisError(f"layout: statement {type(stmt).__name__} at line {stmt.lineno} outside the analysable subset")
 
 
